@@ -215,6 +215,15 @@ impl<'a> ArrayBytesFixedDisjointView<'a> {
         let contiguous_indices = self.contiguous_linearised_indices();
         contiguous_indices.into_iter().for_each(|index| {
             let offset = usize::try_from(index * self.data_type_size as u64).unwrap();
+            #[cfg(zarrs_verif)]
+            crate::storage::verif_hooks::emit(
+                "view.write",
+                &[
+                    unsafe { self.bytes.index_mut(0..0) }.as_ptr() as u64,
+                    offset as u64,
+                    length as u64,
+                ],
+            );
             unsafe {
                 self.bytes
                     .index_mut(offset..offset + length)
@@ -252,6 +261,15 @@ impl<'a> ArrayBytesFixedDisjointView<'a> {
                 debug_assert!((output_offset + length) <= self.bytes.len());
                 debug_assert!((subset_offset + length) <= subset_bytes.len());
                 let subset_offset_end = subset_offset + length;
+                #[cfg(zarrs_verif)]
+                crate::storage::verif_hooks::emit(
+                    "view.write",
+                    &[
+                        unsafe { self.bytes.index_mut(0..0) }.as_ptr() as u64,
+                        output_offset as u64,
+                        length as u64,
+                    ],
+                );
                 unsafe {
                     self.bytes
                         .index_mut(output_offset..output_offset + length)
